@@ -75,4 +75,4 @@ def main(n, seed, path):
             emit({"ev":"incr","P":P,"old":cp(text),"f":fl,"date":nd.toordinal(),"today":today.toordinal(),"out":[0] if out is None else cp(out),
                   "dbg":"%s %s %s %s -> %s"%(ps,text,{k:v for k,v in fl.items() if v and v!='none'},nd,out)})
     print(k,"events")
-main(int(sys.argv[1]), int(sys.argv[2]), sys.argv[3])
+if __name__ == "__main__": main(int(sys.argv[1]), int(sys.argv[2]), sys.argv[3])
